@@ -295,8 +295,12 @@ C03_Step(Hh, B, T, e) ==
         THEN {V("C03", "dropoff_on_arrival", "vehicle", e.v)} ELSE {})
 
 \* "none vanishes without a trace": what the input steps ANNOUNCE (their add / cancel reports) is what they did
-C03_Announced(T, e) ==
-  IF e.ev # "pre" THEN {} ELSE
+C03_Announced(B, T, e) ==
+  IF e.ev = "update" THEN
+     \* a pickup that is reported is a pickup that happened (the request boarded in this very update)
+     {V("C03", "announced_pickup_is_a_pickup", "request", x.request_id) :
+        x \in {x \in Reports(e, "pickup_request_event") : x.request_id \notin PickedNow(B, T, e)}}
+  ELSE IF e.ev # "pre" THEN {} ELSE
      {V("C03", "announced_admission_is_admitted", "request", x.request_id) :
         x \in {x \in Reports(e, "add_request_event") : x.request_id \notin DOMAIN T.req}}
   \cup {V("C03", "announced_cancellation_is_cancelled", "request", x.request_id) :
@@ -413,7 +417,7 @@ MonStep(Hh, B, T, e) ==
   LET upd == e.ev = "update" /\ e.v \in DOMAIN B.veh /\ e.v \in DOMAIN T.veh
       Hn  == HNext(Hh, B, T, e)
   IN
-     (IF Has("C03") THEN C03_Step(Hh, B, T, e) \cup C03_Announced(T, e) ELSE {})
+     (IF Has("C03") THEN C03_Step(Hh, B, T, e) \cup C03_Announced(B, T, e) ELSE {})
   \cup (IF Has("C09") /\ e.ev = "instr" /\ e.v \in DOMAIN B.veh
         THEN C09_Rejected(B, T, e.v, e.out) \cup C09_Effects(B, T, e.v, e.out)
              \cup (IF e.out = "invalid" THEN {} ELSE C09_Applied(B, T, e.v, e.nx, e.out))
